@@ -481,9 +481,12 @@ func TestVerifC24(t *testing.T) {
 			s.f.Stop()
 			r.Emit(l, "ok")
 		case "wait":
-			s.v.openAll()
+			// Wait is entered first (as the processor does after its Fetch loop); the pending parent
+			// reads, including failing ones, return only afterwards
 			done := make(chan error, 1)
 			go func() { done <- s.f.Wait() }()
+			time.Sleep(time.Millisecond)
+			s.v.openAll()
 			select {
 			case err := <-done:
 				s.waited = true
@@ -576,6 +579,9 @@ func c24Flush(r *verifh.Run) {
 	c24VioMu.Unlock()
 	for _, v := range p {
 		r.Violation(v.key, "%s", v.msg)
+	}
+	if len(p) > 0 {
+		r.Flush()
 	}
 }
 
